@@ -12,8 +12,11 @@ package main
 import (
 	"bytes"
 	"fmt"
+	"net"
+	"net/netip"
 	"reflect"
 	"sort"
+	"strconv"
 	"strings"
 	"sync"
 	"testing/synctest"
@@ -360,10 +363,36 @@ func h1ParseCmds(text string) ([]string, error) {
 	return out, nil
 }
 
-// h1NormDst: "http://h:1/" and "http://h:1" denote the same destination.
+// h1NormDst: "http://h:1/" and "http://h:1" denote the same destination. Host and port of a destination are what
+// net.SplitHostPort makes of the authority (an IPv6 literal stands in brackets): two destinations whose authorities
+// split into the same IP address (or the same host name, case-insensitively) and the same port number are the same;
+// an authority that does not split into host and port is compared as the text it is.
 func h1NormDst(d string) string {
 	if i := strings.Index(d, "://"); i > 0 && strings.Count(d[i+3:], "/") == 1 && strings.HasSuffix(d, "/") {
-		return strings.TrimSuffix(d, "/")
+		d = strings.TrimSuffix(d, "/")
 	}
-	return d
+	i := strings.Index(d, "://")
+	if i <= 0 {
+		return d
+	}
+	auth, tail := d[i+3:], ""
+	if j := strings.IndexAny(auth, "/?#"); j >= 0 {
+		auth, tail = auth[:j], auth[j:]
+	}
+	if strings.Contains(auth, "@") {
+		return d
+	}
+	host, port, err := net.SplitHostPort(auth)
+	if err != nil {
+		return d
+	}
+	if ip, err := netip.ParseAddr(host); err == nil {
+		host = ip.String()
+	} else {
+		host = strings.ToLower(host)
+	}
+	if n, err := strconv.Atoi(port); err == nil && n >= 0 && !strings.HasPrefix(port, "+") {
+		port = strconv.Itoa(n)
+	}
+	return d[:i+3] + net.JoinHostPort(host, port) + tail
 }
